@@ -129,7 +129,7 @@ func main() {
 	b.WriteString("(* GENERATED by tools/lockfacts from " + repo + " — do not edit *)\n")
 	b.WriteString("From Coq Require Import List String.\nFrom Verif Require Import Model.Lock.\nImport ListNotations.\nLocal Open Scope string_scope.\n\n")
 
-	var guardsDeclared, guardsInferred [][2]string
+	var guardsDeclared, guardsInferred, inferable [][2]string
 	var allFuncs []namedIR
 	var entries []string
 	var escapes [][2]string
@@ -149,6 +149,7 @@ func main() {
 		}
 		if sp.infer {
 			for _, g := range fc.inferGuards() {
+				inferable = append(inferable, [2]string{fc.mutexName, fc.q(g)})
 				if !declared[g] {
 					guardsInferred = append(guardsInferred, [2]string{fc.q(g), fc.mutexName})
 				}
@@ -234,6 +235,8 @@ func main() {
 	b.WriteString("(* guard map, INFERRED part: field written under the struct's mutex by some non-constructor function *)\n")
 	b.WriteString("Definition guards_inferred : list (string * string) := " + pairListNL(guardsInferred) + ".\n")
 	b.WriteString("Definition guards : list (string * string) := (guards_declared ++ guards_inferred)%list.\n")
+	b.WriteString("(* (mutex, field) for every field the inference rule yields, declared ones included *)\n")
+	b.WriteString("Definition inferable : list (string * string) := " + pairList(inferable) + ".\n")
 	b.WriteString("\nDefinition funcs : list (string * list instr) := [\n")
 	for i, f := range allFuncs {
 		var items []string
